@@ -69,7 +69,7 @@ def del_pca_model(mpca):
 
 
 lsci.PCA.argtypes = [ctypes.POINTER(mx.MATRIX),
-                     ctypes.c_size_t,
+                     ctypes.c_int,
                      ctypes.c_size_t,
                      ctypes.POINTER(PCAMODEL),
                      ctypes.POINTER(ctypes.c_int)]
